@@ -234,6 +234,79 @@ pub mod pausable {
         witness!(!which, "attr_when_paused_returns");
         end_checks(1);
     }
+    // ---- macro COMPOSITION and parameter shapes: the access macros must keep the attributes stacked below them,
+    // and `#[only_role]` must demand authorization for a borrowed `&Address` parameter too (no shipped example stacks
+    // the two macro families or borrows the role parameter, so only harness-local functions can see such a regression)
+    #[stellar_macros::only_owner]
+    #[stellar_macros::when_not_paused]
+    fn owner_then_pause(e: &Env) -> u32 {
+        1
+    }
+    #[stellar_macros::when_not_paused]
+    #[stellar_macros::only_owner]
+    fn pause_then_owner(e: &Env) -> u32 {
+        2
+    }
+    #[stellar_macros::only_admin]
+    #[stellar_macros::when_not_paused]
+    fn admin_then_pause(e: &Env) -> u32 {
+        3
+    }
+    #[stellar_macros::only_role(caller, "minter")]
+    #[stellar_macros::when_not_paused]
+    fn role_then_pause(e: &Env, caller: Address) -> u32 {
+        4
+    }
+    #[stellar_macros::only_role(caller, "minter")]
+    fn role_borrowed(e: &Env, caller: &Address) -> u32 {
+        5
+    }
+    #[kani::proof]
+    #[kani::unwind(18)]
+    pub fn stacked_attribute_macros() {
+        use stellar_access::access_control::AccessControlStorageKey;
+        use stellar_access::ownable::OwnableStorageKey;
+        setup_world();
+        let e = Env::default();
+        let paused = declare_paused(0);
+        let owner = addr_below(3);
+        let owner_set: bool = kani::any();
+        model::declare_val(1, 2, &OwnableStorageKey::Owner, owner_set, &owner, 0);
+        let admin = addr_below(3);
+        let admin_set: bool = kani::any();
+        model::declare_val(2, 2, &AccessControlStorageKey::Admin, admin_set, &admin, 0);
+        let caller = addr_below(3);
+        let has_role: bool = kani::any();
+        model::declare_val(3, 0, &AccessControlStorageKey::HasRole(caller.clone(), soroban_sdk::Symbol::new(&e, "minter")), has_role, &0u32, kani::any());
+        let which: u8 = kani::any();
+        kani::assume(which < 5);
+        if which == 0 {
+            let r = owner_then_pause(&e);
+            witness!(r == 1, "owner_then_pause_returns");
+            prop!(!paused, "C16.pausable.attr_stack.only_owner_keeps_when_not_paused_below_it");
+            prop!(owner_set && authorized(&owner), "C06.attr_stack.only_owner_above_when_not_paused_still_demands_owner");
+        } else if which == 1 {
+            let r = pause_then_owner(&e);
+            witness!(r == 2, "pause_then_owner_returns");
+            prop!(!paused, "C16.pausable.attr_stack.when_not_paused_above_only_owner_effective");
+            prop!(owner_set && authorized(&owner), "C06.attr_stack.only_owner_below_when_not_paused_still_demands_owner");
+        } else if which == 2 {
+            let r = admin_then_pause(&e);
+            witness!(r == 3, "admin_then_pause_returns");
+            prop!(!paused, "C16.pausable.attr_stack.only_admin_keeps_when_not_paused_below_it");
+            prop!(admin_set && authorized(&admin), "C06.attr_stack.only_admin_above_when_not_paused_still_demands_admin");
+        } else if which == 3 {
+            let r = role_then_pause(&e, caller.clone());
+            witness!(r == 4, "role_then_pause_returns");
+            prop!(!paused, "C16.pausable.attr_stack.only_role_keeps_when_not_paused_below_it");
+            prop!(has_role && authorized(&caller), "C06.attr_stack.only_role_above_when_not_paused_still_demands_role_and_auth");
+        } else {
+            let r = role_borrowed(&e, &caller);
+            witness!(r == 5, "role_borrowed_returns");
+            prop!(has_role && authorized(&caller), "C06.attr_shape.only_role_on_borrowed_address_demands_role_and_auth");
+        }
+        end_checks(4);
+    }
     /// converse: the guards accept when the flag has the required value
     #[kani::proof]
     #[kani::unwind(18)]
